@@ -80,7 +80,9 @@ def handle (inp impl : Json) : CaseResult :=
   let blockOk := !callerLevel || admitted ||
     (let c := caller inbound (jbool inp "prior_admit") o.outcome
      match c.blocked with
-     | some d => jhas impl "blocked" && jnat impl "blocked" == d
+     | some d => jhas impl "blocked" && jnat impl "blocked" == d &&
+         -- its term counts from the moment it is placed, not from some earlier moment of the handshake
+         jnat impl "block_early_ms" == 0
      | none => !(jhas impl "blocked"))
   let ok := !(jbool impl "panic") && (!admitted || grounds) && blockOk &&
     (admitted || (!(jbool impl "notified") && !(jhas impl "registered"))) && jnat impl "lookups" ≤ 1 &&
